@@ -44,8 +44,8 @@ def bare_interpreters():
 def shards(tier, seed):
     out = []
     for py in bare_interpreters():
-        for path in ("popen", "via", "socket"):
-            out.append({"kind": "dynamic", "python": py, "path": path, "n": 8 if tier == "quick" else 1500})
+        for path in ("popen", "via", "socket", "via_nopython"):
+            out.append({"kind": "dynamic", "python": py, "path": path, "n": 8 if tier == "quick" else (1500 if path != "via_nopython" else 200)})
     for py in bare_interpreters():
         out.append({"kind": "sweep", "python": py})
     out.append({"kind": "standalone", "pythons": bare_interpreters()})
@@ -59,10 +59,12 @@ def run_shard(spec):
 
 PROBE = r"""
 import sys
+already = sorted(m for m in sys.modules if m.split(".")[0] == "execnet")
 try:
     import execnet
     importable = "importable from " + str(getattr(execnet, "__file__", "?"))
-    del sys.modules["execnet"]
+    for _m in [m for m in sys.modules if m.split(".")[0] == "execnet"]:
+        del sys.modules[_m]  # this probe's own import must not count
 except ImportError:
     importable = "ImportError"
 seen = []
@@ -71,7 +73,7 @@ def hook(event, args):
         seen.append(str(args[0]))
 sys.addaudithook(hook)
 sys._verif_seen = seen
-channel.send((importable, sys.version.split()[0], sys.flags.no_site, sys.flags.ignore_environment, __name__))
+channel.send((importable, sys.version.split()[0], sys.flags.no_site, sys.flags.ignore_environment, __name__, already))
 """
 
 COVER_START = r"""
@@ -121,9 +123,23 @@ def run_dynamic(spec):
     for model in ("thread", "main_thread_only"):
         label = f"{label0}:{model}"
         group = execnet.Group()
+        saved_env = {k: os.environ.get(k) for k in ("PYTHONPATH", "EXECNET_DEBUG")}
+        # EXECNET_DEBUG selects other branches of the shipped source: they must be self-contained too
+        dbg = {"thread": rng.choice((None, "1", "2")), "main_thread_only": rng.choice((None, "1"))}[model]
         try:
+            if dbg is not None:
+                os.environ["EXECNET_DEBUG"] = dbg
+                label += f":EXECNET_DEBUG={dbg}"
+                res.count("bare_workers_with_debug_tracing")
             bare = f"popen//python={py} -S -E"
-            if spec["path"] == "popen":
+            if spec["path"] == "via_nopython":
+                # a forwarder without execnet starts the sub-process with *its own* interpreter and no python= in the
+                # spec: the sub must still be bootstrapped from shipped source (nothing to import there)
+                os.environ.pop("PYTHONPATH", None)
+                m = group.makegateway(bare + "//id=master")
+                gw = group.makegateway(f"popen//via=master//execmodel={model}")
+                probe_on = [m, gw]
+            elif spec["path"] == "popen":
                 gw = group.makegateway(bare + f"//execmodel={model}")
                 probe_on = [gw]
             elif spec["path"] == "via":
@@ -137,8 +153,10 @@ def run_dynamic(spec):
                 gw = group.makegateway("socket//installvia=master")
                 probe_on = [m]
             for w in probe_on:
-                imp, ver, nosite, ignenv, nm = w.remote_exec(PROBE).receive(30)
-                if imp != "ImportError":
+                imp, ver, nosite, ignenv, nm, already = w.remote_exec(PROBE).receive(30)
+                if already:
+                    res.violation(f"worker-was-bootstrapped-by-importing-execnet:{spec['path']}", f"{label}: sys.modules had {already[:4]} before any user code ran")
+                if imp != "ImportError" and not (spec["path"] == "via_nopython" and w is gw):
                     res.inconclusive.append(f"{label}: execnet is {imp} on the would-be bare interpreter")
                     break
                 if nm != "__channelexec__":
@@ -182,6 +200,21 @@ def run_dynamic(spec):
             res.violation(f"bare-bootstrap-failed:{spec['path']}:{type(e).__name__}", f"{label}: {str(e)[-400:]}")
         finally:
             group.terminate(3.0)
+            for k, v in saved_env.items():
+                if v is None:
+                    os.environ.pop(k, None)
+                else:
+                    os.environ[k] = v
+            if dbg == "1":
+                import glob
+                import tempfile
+
+                for f in glob.glob(os.path.join(tempfile.gettempdir(), "execnet-debug-*")):
+                    try:
+                        if time.time() - os.path.getmtime(f) < 300:
+                            os.unlink(f)
+                    except OSError:
+                        pass
     return res
 
 
